@@ -7,7 +7,7 @@ from .. import q
 from ..fsm import reaches, assignments, holds, guard_atoms, consistent
 
 TITLE = 'SPI register transactions'
-FLOOR = 60
+FLOOR = 100
 DECIDES = ('SPICommandInterface, for several (command_size, word_size) pairs: (a) framing -- the bit counter can hold '
            'max(command_size, word_size); in the command state exactly command_size bits and in the data state exactly '
            'word_size bits are shifted in (the set of counter values that shift is 0..size-1, the completion arm fires '
@@ -18,8 +18,8 @@ DECIDES = ('SPICommandInterface, for several (command_size, word_size) pairs: (a
            'm.next wins) to a state from which the data state is only reachable through a new command; (d) word_complete '
            'has an unconditional default of 0, is raised only in the data state under the completion comparison together '
            'with word_received <= shift register, and that arm leaves to a state that cannot re-enter the data state '
-           'without a new command (one strobe per transaction); (e) command is loaded from the command shifter only under '
-           'the command completion and is written nowhere else (stable through the data phase); (f) the response is '
+           'without a new command (one strobe per transaction); (e) command is written only in the command state, only from the command shifter, and is '
+           'loaded whenever that state proceeds to the data phase (stable through the data phase); (f) the response is '
            'latched from word_to_send in a state that lies on every path command -> data and after the command register '
            'was loaded, sdo is the MSB of the latched shift register (never the live word_to_send), nothing else writes '
            'the shifters.  SPIRegisterInterface, for concrete register maps built through its public add_* API (memory '
@@ -270,12 +270,17 @@ def check_command_interface(ctx, csz, wsz):
     ctx.need(len(wr_loads) >= 1 and isinstance(wr_loads[0].rhs, E) and wr_loads[0].rhs.op == 'sig',
              'word_received is loaded from a shift register')
     data_reg = wr_loads[0].rhs.args[0].name
-    # the counter: the one signal compared in the guard of the word_complete raise
+    # the counter: the one signal that is compared with a constant in the guards of the shifts / completion arms
     cands = set()
-    for l in wc_raise[0].guard:
-        if isinstance(l.e, E) and len(l.e.sigs()) == 1 and l.e.op in ('<', '<=', '>', '>=', '=='):
-            cands |= l.e.sigs()
-    ctx.need(len(cands) == 1, 'the bit counter (one signal compared in the guard that raises word_complete)')
+    sites = list(wc_raise) + list(cmd_loads) + [a for a in ir.drivers(data_reg, exact=True) + ir.drivers(cmd_reg, exact=True)
+                                               if isinstance(a.rhs, E) and SDI in a.rhs.sigs()]
+    for a in sites:
+        for l in a.guard:
+            if isinstance(l.e, E) and len(l.e.sigs()) == 1 and l.e.op in ('<', '<=', '>', '>=', '==') and \
+                    any(x.op == 'const' for x in l.e.args):
+                cands |= l.e.sigs()
+    ctx.need(len(cands) == 1, 'the bit counter (one signal compared with a constant in the guards of the shifts and '
+                              'completion arms; found %s)' % sorted(cands))
     cnt = cands.pop()
     si = ir.signals.get(cnt)
     ctx.need(si is not None and si.w, 'declaration of the bit counter')
@@ -288,9 +293,14 @@ def check_command_interface(ctx, csz, wsz):
            'the bit counter %s (width %s, range %s) must be able to hold max(command_size, word_size) = %d, otherwise '
            'the completion comparison never fires' % (cnt, width, si.rng, need))
 
+    def on_data_path(dst):
+        return dst == data_st or (dst != cmd_st and reaches(fsm, dst, data_st, avoid={cmd_st}))
+
     # ---- (a) framing of both phases
+    proceed = [e for e in fsm.out_edges(cmd_st) if isinstance(e.dst, str) and on_data_path(e.dst)]
+    ctx.need(len(proceed) >= 1, 'an edge from the command state towards the data state')
     edge_atoms = {}
-    for role, st, reg, size, done_sites in (('command', cmd_st, cmd_reg, csz, cmd_loads), ('data', data_st, data_reg, wsz, wc_raise)):
+    for role, st, reg, size, done_sites in (('command', cmd_st, cmd_reg, csz, proceed), ('data', data_st, data_reg, wsz, wc_raise)):
         shifts = [a for a in ir.drivers(reg, exact=True) if q.state_of(a) == st and isinstance(a.rhs, E) and SDI in a.rhs.sigs()]
         ctx.need(len(shifts) >= 1, 'the %s shift (an assignment to %s reading sdi in state %s)' % (role, reg, st))
         sh = shifts[0]
@@ -321,13 +331,14 @@ def check_command_interface(ctx, csz, wsz):
         ctx.ob('C51.sample-edge', K + '%s-shift.edge[%s]' % (role, tag), bool(edge_ok), sh.loc,
                'apart from the count, a bit must be shifted on exactly one event per sck period, the falling edge '
                '(registered copy of sck high, sck low) -- the same edge after which sdo advances; found %s' % sorted(rest))
-        # completion arm: first fires at `size`
-        for d in done_sites:
+        # completion (the edge that proceeds to the data phase / the word_complete raise) first fires at `size`
+        for i, d in enumerate(done_sites):
             dv, drest = counter_values(ir, d, cnt, width)
             ok = bool(dv) and min(dv) == size and not [x for x in drest if x[0] != CS]
-            ctx.ob('C51.bits-per-phase', K + '%s-complete.%s[%s]' % (role, d.lhs.canon(), tag), ok and q.state_of(d) == st, d.loc,
-                   '%s may only be driven once all %d bits are in (counter == %d) and independent of sck; its guard %s '
-                   'first holds at %s' % (d.lhs.canon(), size, size, sorted(q.atoms(d)), min(dv) if dv else 'never'))
+            what = 'the transition %s -> %s' % (st, d.dst) if d.kind == 'edge' else d.lhs.canon()
+            ctx.ob('C51.bits-per-phase', K + '%s-complete#%d[%s]' % (role, i, tag), ok and q.state_of(d) == st, d.loc,
+                   '%s may only happen once all %d bits are in (counter == %d) and independent of sck; its guard %s '
+                   'first holds at %s' % (what, size, size, sorted(q.atoms(d)), min(dv) if dv else 'never'))
         # no gap between shifting and completing
         allv = set(vals)
         for d in done_sites:
@@ -347,8 +358,6 @@ def check_command_interface(ctx, csz, wsz):
                'with a stale count: %s' % (role, st, why))
 
     # ---- (c) abort
-    def on_data_path(dst):
-        return dst == data_st or (dst != cmd_st and reaches(fsm, dst, data_st, avoid={cmd_st}))
     for role, st, size in (('command', cmd_st, csz), ('data', data_st, wsz)):
         outs = outcomes_when(ir, fsm, st, cnt, width, {CS: False}, range(size))
         bad = []
@@ -359,7 +368,8 @@ def check_command_interface(ctx, csz, wsz):
                     bad.append('stays in %s under %s' % (st, _asg(asg)))
             elif on_data_path(dst):
                 bad.append('goes on to %s under %s' % (dst, _asg(asg)))
-        ctx.need(outs, 'outcomes of the %s state with CS low' % role)
+        if not outs:
+            bad.append('no feasible evaluation of the state with CS low and an incomplete count')
         ctx.ob('C51.abort', K + '%s-state.abort[%s]' % (role, tag), not bad, fsm.state_loc[st],
                'when CS is released before all %d bits arrived the %s state must abandon the transaction (return '
                'towards idle), whatever the other conditions: %s' % (size, role, '; '.join(bad)))
@@ -367,30 +377,40 @@ def check_command_interface(ctx, csz, wsz):
     # ---- (d) word_complete: default, single raise, leaves
     dflt = [a for a in q.clears(ir, 'self.word_complete') if not a.guard and a.state is None]
     ok = len(dflt) >= 1 and all(min(x.order for x in dflt) < r.order for r in wc_raise)
+    if not ok:
+        # alternatively: an unconditional clear in every state the completion arm leaves to
+        after = {e.dst for e in fsm.out_edges(data_st) if e.dst != data_st and any(q.atoms(r) <= q.atoms(e) for r in wc_raise)}
+        ok = bool(after) and all(any(not a.guard and (a.state is None or q.state_of(a) == s_)
+                                     for a in q.clears(ir, 'self.word_complete')) for s_ in after) and \
+            not [r for r in q.raises(ir, 'self.word_complete') if q.state_of(r) in after]
     ctx.ob('C51.one-strobe', K + 'word_complete.default[%s]' % tag, ok, wc_raise[0].loc,
-           'word_complete must fall back to 0 unconditionally every cycle (single-cycle strobe), assigned before the raise')
+           'word_complete must fall back to 0 in the cycle after it was raised (an unconditional default assigned before '
+           'the raise, or an unconditional clear in the state entered on completion): one strobe per transaction')
     ctx.ob('C51.one-strobe', K + 'word_complete.sites[%s]' % tag, all(q.state_of(r) == data_st for r in wc_raise) and
            all(q.is_one(r.rhs) for r in wc_raise), wc_raise[0].loc,
            'word_complete may only be raised (constant 1) in the data state: %s' % [q.fmt(r) for r in wc_raise])
-    ok = len(wr_loads) == 1 and any(q.atoms(wr_loads[0]) == q.atoms(r) for r in wc_raise) and q.state_of(wr_loads[0]) == data_st \
-        and wr_loads[0].rhs.canon() == data_reg
-    ctx.ob('C51.word-handover', K + 'word_received[%s]' % tag, ok, wr_loads[0].loc,
-           'word_received must be loaded from the data shifter under exactly the condition that raises word_complete: %s'
-           % [q.fmt(a) for a in wr_loads])
+    for i, r in enumerate(wc_raise):
+        rg = dict(q.atoms(r))
+        active = [a for a in wr_loads if (a.state is None or q.state_of(a) == q.state_of(r)) and consistent(a.guard, rg)]
+        taken = [a for a in active if a.rhs.canon() == data_reg and q.atoms(a) <= q.atoms(r)]
+        ok = bool(taken) and not [a for a in active if a.order > max(t.order for t in taken) and a.rhs.canon() != data_reg]
+        ctx.ob('C51.word-handover', K + 'word_received.load#%d[%s]' % (i, tag), ok, r.loc,
+               'in the cycle that raises word_complete, word_received must be loaded from the data shifter %s (and not '
+               'be overridden): %s' % (data_reg, [q.fmt(a) for a in wr_loads]))
     rsi = ir.signals.get('self.word_received')
     ctx.ob('C51.word-handover', K + 'word_received.width[%s]' % tag, rsi is not None and rsi.w == wsz, rsi.loc if rsi else None,
            'word_received must be word_size = %d bits wide' % wsz)
     for r in wc_raise:
         vals, _ = counter_values(ir, r, cnt, width)
-        vals &= set(range(need + 1))
-        outs = outcomes_when(ir, fsm, data_st, cnt, width, dict(q.atoms(r)), sorted(vals))
+        outs = outcomes_when(ir, fsm, data_st, cnt, width, dict(q.atoms(r)), [min(vals)]) if vals else {}
         bad = []
         for dst, (asg, win) in outs.items():
             if dst is None:
                 bad.append('stays in %s under %s' % (data_st, _asg(asg)))
             elif on_data_path(dst):
                 bad.append('goes to %s, from where %s is reachable without a new command' % (dst, data_st))
-        ctx.need(outs, 'outcomes of the data state on completion')
+        if not outs:
+            bad.append('the guard of the raise (%s) can never hold for a counter of width %d' % (sorted(q.atoms(r)), width))
         ctx.ob('C51.one-strobe', K + 'data-state.leave-on-complete[%s]' % tag, not bad, r.loc,
                'the arm that raises word_complete must leave the data state for one that needs a new command before more '
                'data is accepted, otherwise the same transaction strobes twice: %s' % '; '.join(bad))
@@ -401,13 +421,18 @@ def check_command_interface(ctx, csz, wsz):
            len(loads) == len(cmd_loads) and all(q.state_of(a) == cmd_st for a in cmd_loads), cmd_loads[0].loc,
            'command (write flag + address) may only be written from the command shifter in the command state, so that it '
            'is stable from the response latch to the write strobe: %s' % [q.fmt(a) for a in cmd_loads])
+    for i, e in enumerate(proceed):
+        taken = [a for a in loads if q.atoms(a) <= q.atoms(e)]
+        ctx.ob('C51.command-stable', K + 'command.load-on-proceed#%d[%s]' % (i, tag), bool(taken), e.loc,
+               'whenever the command state proceeds to the data phase (%s) the complete shifter must be copied to command '
+               '(loads: %s)' % (q.fmt(e), [q.fmt(a) for a in loads]))
     csi = ir.signals.get('self.command')
     ctx.ob('C51.command-stable', K + 'command.width[%s]' % tag, csi is not None and csi.w == csz, csi.loc if csi else None,
            'command must be command_size = %d bits wide' % csz)
     # the completion of the command phase moves on towards the data state
-    assume = dict(q.atoms(cmd_loads[0]))
-    assume[CS] = True
-    outs = outcomes_when(ir, fsm, cmd_st, cnt, width, assume, [csz])
+    assume = {CS: True}
+    cvals = set(range(csz, max(csz, wsz) + 1)) & set(range(1 << width))
+    outs = outcomes_when(ir, fsm, cmd_st, cnt, width, assume, [min(cvals)]) if cvals else {}
     ok = bool(outs) and all(dst is not None and on_data_path(dst) for dst in outs)
     ctx.ob('C51.command-stable', K + 'command-state.proceed[%s]' % tag, ok, cmd_loads[0].loc,
            'with the command complete (and CS still asserted) the command state must proceed towards the data state: %s'
@@ -434,11 +459,19 @@ def check_command_interface(ctx, csz, wsz):
                'from the command state to the data state and entered only after command was registered (not the command '
                'state itself, where command still shows the previous address; not the data state, where it would '
                'clobber the shift): %s %s' % (q.fmt(la), why))
+    # writers that could disturb a shifter between its load and its use: stateless ones, those in the shifting state, and
+    # (data shifter) those in states lying between the latch and the data state
+    lstates = {q.state_of(la) for la in latches}
+    between = {s_ for s_ in fsm.states if s_ not in lstates and s_ not in (cmd_st, data_st) and on_data_path(s_) and
+               any(L is not None and reaches(fsm, L, s_, avoid={data_st, cmd_st}) for L in lstates)}
     others = [a for a in ir.drivers(data_reg, exact=True) if a not in latches and
+              (a.state is None or q.state_of(a) in between | {data_st}) and
               not (q.state_of(a) == data_st and isinstance(a.rhs, E) and SDI in a.rhs.sigs())]
-    others += [a for a in ir.drivers(cmd_reg, exact=True) if not (q.state_of(a) == cmd_st and isinstance(a.rhs, E) and SDI in a.rhs.sigs())]
+    others += [a for a in ir.drivers(cmd_reg, exact=True) if (a.state is None or q.state_of(a) == cmd_st) and
+               not (q.state_of(a) == cmd_st and isinstance(a.rhs, E) and SDI in a.rhs.sigs())]
     ctx.ob('C51.response-latch', K + 'shifters.no-other-writer[%s]' % tag, not others, others[0].loc if others else None,
-           'nothing but the sdi shift (and the response latch) may write the shifters: %s' % [q.fmt(a) for a in others])
+           'between the response latch and the end of the data phase (and during the command phase) nothing but the sdi '
+           'shift may write the shifters: %s' % [q.fmt(a) for a in others])
     tsi = ir.signals.get('self.word_to_send')
     ctx.ob('C51.response-latch', K + 'word_to_send.width[%s]' % tag, tsi is not None and tsi.w == wsz, tsi.loc if tsi else None,
            'word_to_send must be word_size = %d bits wide' % wsz)
@@ -520,6 +553,7 @@ def build_register_interface(ctx, ctor, plan):
             if isinstance(v, tuple) and v[0] == 'sig':
                 v = sig('t_%s_%x' % (k, addr), v[1])
                 ctx.need(isinstance(v, E) and v.op == 'sig', 'creating a test signal')
+                v.args[0].leaf, v.args[0].parent, v.args[0]._named = 't_%s_%x' % (k, addr), None, True
                 rec[k] = v.args[0].name
             kw[k] = v
         ret = call(method, addr, **kw)
@@ -558,11 +592,16 @@ def check_register_interface(ctx, tag, asz, rsz, default, autoneg, plan):
     # ---- (g) transceiver parameters and wiring
     subs = [s for s in ir.submodules if s.obj.clsname == 'SPICommandInterface']
     ctx.need(len(subs) == 1, 'the SPICommandInterface submodule')
-    kw = subs[0].obj.kwargs
-    ok = kw.get('command_size') == asz + 1 and kw.get('word_size') == rsz
+    at = subs[0].obj.attrs
+    got = {k: at.get(k) for k in ('command_size', 'word_size')}
+    cw = ir.signals.get(CMD)
+    ww = ir.signals.get(WR)
+    tw = ir.signals.get(TS)
+    ok = got['command_size'] == asz + 1 and got['word_size'] == rsz and cw is not None and cw.w == asz + 1 and \
+        ww is not None and ww.w == rsz and tw is not None and tw.w == rsz
     ctx.ob('C51.transceiver', K + 'interface.sizes[%s]' % tag, ok, subs[0].loc,
-           'the transceiver must be built with command_size = address_size + 1 = %d and word_size = register_size = %d: %s'
-           % (asz + 1, rsz, {k: v for k, v in kw.items() if isinstance(v, int)}))
+           'the transceiver must be built with command_size = address_size + 1 = %d and word_size = register_size = %d: %s, '
+           'command is %s bits, word_received %s bits' % (asz + 1, rsz, got, cw.w if cw else None, ww.w if ww else None))
     wires = (('self.interface.spi.sck', SCK), ('self.interface.spi.sdi', SDI), ('self.interface.spi.cs', CS),
              (SDO, 'self.interface.spi.sdo'))
     bad = []
@@ -586,8 +625,8 @@ def check_register_interface(ctx, tag, asz, rsz, default, autoneg, plan):
         for w, a, c, env in envs():
             v = ev(ir, E('sig', (ir.signals[signame],)), env) if signame in ir.signals else None
             if v is None:
-                return False, '%s cannot be evaluated from command/word_complete (drivers: %s)' % (
-                    signame, [q.fmt(d) for d in ir.drivers(signame, exact=True)][:2])
+                raise AnalysisError('anchor vanished or not understood: %s cannot be evaluated from command / word_complete '
+                                    '(drivers: %s)' % (signame, [q.fmt(d) for d in ir.drivers(signame, exact=True)][:2]))
             if v != want(w, a, c):
                 return False, '%s is %d, expected %d, for write-bit=%d address=%d word_complete=%d: %s' % (
                     role, v, want(w, a, c), w, a, c, [q.fmt(d) for d in ir.drivers(signame, exact=True)][:2])
@@ -605,7 +644,8 @@ def check_register_interface(ctx, tag, asz, rsz, default, autoneg, plan):
             ws_name = gs[0] if len(gs) == 1 else None
         if rec['method'] == 'add_register' or 'write_strobe' in rec:
             if ws_name is None:
-                ctx.ob('C51.write-strobe', rk + '.write_strobe[%s]' % tag, False, None,
+                dv = ir.drivers(rec['value'], exact=True)
+                ctx.ob('C51.write-strobe', rk + '.write_strobe[%s]' % tag, False, dv[0].loc if dv else None,
                        'the memory register at address %d has no write strobe guarding its single update: %s' % (
                            addr, [q.fmt(x) for x in ir.drivers(rec['value'], exact=True)]))
             else:
@@ -690,6 +730,8 @@ def check_register_interface(ctx, tag, asz, rsz, default, autoneg, plan):
 def plan_size(plan, addr, rsz):
     for method, a, kws in plan:
         if a == addr:
+            if 'value_signal' in kws:
+                return kws['value_signal'][1]
             return kws.get('size') or rsz
     return rsz
 
@@ -708,6 +750,7 @@ PLAN_B = [
     ('add_register', 0, {}),
     ('add_read_only_register', 6, {'read': (S, 32), 'read_strobe': (S, 1)}),
     ('add_register', 4, {'write_strobe': (S, 1)}),
+    ('add_register', 0x10, {'value_signal': (S, 20)}),
 ]
 PLAN_C = [
     ('add_register', 1, {}),
@@ -719,10 +762,10 @@ def run(ctx):
     check_command_interface(ctx, 16, 32)         # as instantiated by the default SPIRegisterInterface
     check_command_interface(ctx, 8, 4)           # command longer than the data word
     check_register_interface(ctx, 'a7r16', 7, 16, 0xBEEF, True, PLAN_A)
-    check_register_interface(ctx, 'a15r32', 15, 32, 0, False, PLAN_B)
+    check_register_interface(ctx, 'a15r32', 15, 32, 0xDEADBEEF, False, PLAN_B)
     if ctx.tier == 'thorough':
         for csz, wsz in ((2, 3), (3, 2), (8, 8), (5, 12), (32, 16), (16, 64)):
             check_command_interface(ctx, csz, wsz)
         check_register_interface(ctx, 'a3r8', 3, 8, 0xA5, True, PLAN_C)
         check_register_interface(ctx, 'a7r16-rev', 7, 16, 0x1234, True, list(reversed(PLAN_A)))
-        check_register_interface(ctx, 'a15r32-auto', 15, 32, 0xDEADBEEF, True, [p for p in PLAN_B if p[1] != 0])
+        check_register_interface(ctx, 'a15r32-auto', 15, 32, 0, True, [p for p in PLAN_B if p[1] != 0])
